@@ -39,6 +39,7 @@ KINDS = {
     "ms": "datetime64[ms]",
     "us": "datetime64[us]",
     "td": "timedelta64[D]",
+    "f16": "long double",
     "ns": "datetime64[ns]",
     "obj": "object",
 }
@@ -90,6 +91,9 @@ def _np_array(kind, toks):
         return np.array([int(t) for t in toks], dtype={"i1": "int8", "i2": "int16", "u4": "uint32"}[kind])
     if kind == "f4":
         return np.array([np.nan if t is None else float(t) for t in toks], dtype="float32")
+    if kind == "f16":
+        # extended precision (x86 long double): whole numbers beyond 2**53 that float64 cannot tell apart; tokens are decimal text
+        return np.array([np.nan if t is None else np.longdouble(t) for t in toks], dtype=np.longdouble)
     if kind == "b1":
         return np.array([bool(t) for t in toks], dtype="bool")
     if kind == "str":
@@ -236,6 +240,9 @@ def cells(a):
         return [None if x is None else x for x in a.tolist()]
     if k == "m":
         return [None if x is None else x for x in a.astype("timedelta64[us]").tolist()]
+    if k == "f" and a.dtype.itemsize > 8:
+        # long double has no Python equivalent: whole numbers as exact ints (the f16 alphabet holds nothing else)
+        return [None if x != x else (int(x) if x == np.floor(x) and abs(x) < 2 ** 63 else str(np.format_float_positional(x, unique=True))) for x in a]
     if k == "f":
         return [None if x != x else x for x in a.tolist()]
     if k == "U" or isinstance(a.dtype, np.dtypes.StringDType):
